@@ -1025,7 +1025,7 @@ def run(ctx: core.Ctx):
         ops = [s["op"] for s in c.get("history", [])]
         ctx.violation("real behaviour violates C18: " + cls + (" in debug_mode" if dbg else ""), {"case": c, "detail": detail}, kind="concrete",
                       match_info={"failure": cls, "debug_mode": dbg, "engine": c["world"]["engine"], "last_op": ops[-1] if ops else None})
-    if not concrete:
+    if not ctx.violations:  # no NEW concrete violation (none at all, or only ones a registered known finding describes)
         if broken:
             c, w = broken[0]
             ctx.violation("correspondence Tables model <-> DatabaseAPI catalog no longer checks",
